@@ -130,6 +130,17 @@ fn corpus_for<B: Backend>(seed: u64) -> Vec<Value> {
     let sealed = lk.clone().seal(&ppk).unwrap().to_string();
     texts.push(("seal", "library".into(), sealed.clone()));
     texts.push(("seal", "library, one character changed".into(), flip(&sealed)));
+    // --- Ed25519 versions: a token that verifies under a small-order public key (the identity point
+    // as key and as R, S = 0 satisfies the verification equation for every message).  Whether a back end
+    // accepts it is its affair (DESIGN section 7); every build of it must give the SAME verdict.
+    if matches!(ver, model::Ver::V2 | model::Ver::V4) {
+        let mut ident = vec![0u8; 32];
+        ident[0] = 1;
+        let mut sig = ident.clone();
+        sig.extend_from_slice(&[0u8; 32]);
+        texts.push(("public-under-key:0100000000000000000000000000000000000000000000000000000000000000", "identity point as public key, R = identity, S = 0".into(), model::public_assemble(ver, MSG, &sig, FOOTER)));
+        texts.push(("public-under-key:0100000000000000000000000000000000000000000000000000000000000000", "identity point as public key, the library's own signature".into(), lib_pub.clone()));
+    }
     // --- key texts: every key body under every key header, parsed as every key kind
     // (a reduced build must accept exactly the key texts the full build accepts, kind by kind)
     {
@@ -158,6 +169,9 @@ fn corpus_for<B: Backend>(seed: u64) -> Vec<Value> {
                 "local" => text.parse::<SealedToken<V<B>, Local, Raw, Vec<u8>>>().and_then(|t| t.unseal(&lk, &[], &nv())).map(|u| u.claims.0),
                 "pie" => text.parse::<PieWrappedKey<V<B>, Local>>().and_then(|w| w.unwrap(&wk)).map(|k| key_bytes(&k)),
                 "pw" => text.parse::<PasswordWrappedKey<V<B>, Local>>().and_then(|w| w.unwrap(PASSWORD)).map(|k| key_bytes(&k)),
+                k if k.starts_with("public-under-key:") => key_from_bytes::<V<B>, Public>(&hex::decode(&k["public-under-key:".len()..]).unwrap_or_default())
+                    .and_then(|key| text.parse::<SealedToken<V<B>, Public, Raw, Vec<u8>>>().and_then(|t| t.unseal(&key, &[], &nv())))
+                    .map(|u| u.claims.0),
                 "key-local" => text.parse::<paseto_core::key::Key<V<B>, Local>>().map(|k| key_bytes(&k)),
                 "key-public" => text.parse::<paseto_core::key::Key<V<B>, Public>>().map(|k| key_bytes(&k)),
                 "key-secret" => text.parse::<paseto_core::key::Key<V<B>, paseto_core::version::Secret>>().map(|k| key_bytes(&k)),
